@@ -470,6 +470,37 @@ def g6(ctx):
             if isinstance(x, tuple) and x[0] == "bin" and x[1] in ("Eq", "Ne", "Gt", "Lt") and role_mentions_call(x[2], "len") and role_mentions_call(x[3], "len"):
                 okfix = True
     ctx.check(okfix, "build-ot-fixpoint", "build_ot repeats until the table stops growing (len before == len after)", "build_ot no longer iterates to a fixpoint", where_of(b))
+    # ... and "a round" is the pass over ALL generators: what the exit test compares is measured outside the loop over the
+    # generators (before it starts / after it ended), or is a flag that a pass can only raise.  A size taken, or a flag
+    # assigned from a comparison, inside the per-generator loop records what the generator iterated LAST did — the loop then
+    # stops while an earlier generator still extends the orbit, and which one is last depends on the hash order
+    gl = [l for l in ls if b.argc >= 3 and mir.role_mentions_param(l[1], b.var_names.get(3) or "generators")]
+    if gl and okfix:
+        gbody = set()
+        for l in gl:
+            gbody |= C.loop_body(b, l)
+        badm = []
+        for sb in b.switch_blocks():
+            t = b.blocks[sb]["term"]
+            r = b.role_of_operand(t["discr"])
+            ms = r[1] if r[0] == "phi" else [r]
+            if not any(isinstance(x, tuple) and x[0] == "bin" and x[1] in ("Eq", "Ne", "Gt", "Lt") and role_mentions_call(x[2], "len") and role_mentions_call(x[3], "len") for x in ms):
+                continue
+            for df in C.local_slice(b, t["discr"]):
+                if df["bb"] not in gbody:
+                    continue
+                if df["kind"] == "call":
+                    if df["call"].callee and df["call"].callee.name == "len":
+                        badm.append(("len() measured", df["bb"]))
+                elif df["rv"]["k"] == "bin" and df["rv"]["op"] not in ("BitOr",):
+                    badm.append(("comparison evaluated", df["bb"]))
+                elif df["rv"]["k"] == "use" and df["rv"]["op"]["k"] == "const" and df["rv"]["op"].get("text") == "false" and not df["lhs"]["p"]:
+                    # (the lowered `a && b` / `!x` temporaries assign false as well: only a store to a user variable counts)
+                    if b.var_names.get(df["lhs"]["l"]):
+                        badm.append(("flag reset", df["bb"]))
+        ctx.check(not badm, "build-ot-fixpoint:whole-round", "the exit test of build_ot's fixpoint loop compares sizes measured outside the loop over the generators",
+                  "the exit test of build_ot's fixpoint loop depends on a value computed inside the loop over the generators (%s): it reflects only the generator that happens to be iterated last, so the orbit table is abandoned while other generators still extend it — orbits come out incomplete (which ones depends on the hash order of the generator set)" % ", ".join(sorted({x[0] for x in badm})),
+                  where_of(b, badm[0][1] if badm else None))
     # all_perms: the product left x right is complete
     b = fn(crate, "all_perms", GRP)
     ext = [c for c in b.calls if c.callee and c.callee.name in ("extend", "push") and not b.blocks[c.bb]["cleanup"]]
